@@ -425,9 +425,9 @@ def replay_nms(S, kv, idx, c):
         xc, yc, angle, aspect, height = lattice_args(d["box"], False)
         # the confidence field (not used by nms) tags the box with its 1-based case index
         b = S.Universal2DBox.new_with_confidence(xc, yc, angle, aspect, height, (i + 1) / 64.0)
-        dets.append((b, None if d["score"] < 0 else d["score"] / 100.0))
+        dets.append((b, None if d["score"] <= -100000 else d["score"] / 100.0))
     thr = c["thr"][0] / c["thr"][1]
-    sthr = None if c["sthr"] < 0 else c["sthr"] / 100.0
+    sthr = None if c["sthr"] <= -100000 else c["sthr"] / 100.0
     if idx % 3 == 0:
         res = S.nms(detections=dets, nms_threshold=thr, score_threshold=sthr)
     else:
